@@ -123,9 +123,8 @@ func VerifStack(features, k, interim int) {
 			verifrt.Assert(rec.status == http.StatusRequestEntityTooLarge && !reached, "size_limit rejects with 413 and the backend is not contacted")
 			continue
 		}
-		if interim == 0 {
-			verifrt.Assert(rec.wire.Get("X-App") == "Helios", "the headers plugin's response header is on the wire")
-		}
+		verifrt.Assert(rec.wire.Get("X-App") == "Helios", "the headers plugin's response header is on the wire")
+		verifrt.Assert(len(rec.wire["Link"]) == 0, "the final response carries no header that only an interim response carried")
 		if reached && !aborted {
 			st := rec.status
 			_, bst := loadbalancer.VerifLastBackend()
